@@ -227,6 +227,11 @@ func (e *Engine) Run(t *tape.Tape, keep bool) *sim.Result {
 	default:
 		nsteps = t.Range(1, 40)
 	}
+	// per-run workload knobs: how often the session drains between messages, and
+	// whether requests and their cancellation are frequent (an editor that keeps
+	// typing while stale hovers are cancelled)
+	drainDen := []int{3, 1, 8}[t.Draw(3)]
+	cancelHeavy := t.Draw(3) == 2
 	fired := map[string]int{}
 	var oc *outcome
 	sched := &verifsim.Sched{MaxDecisions: 400000}
@@ -310,6 +315,9 @@ func (e *Engine) Run(t *tape.Tape, keep bool) *sim.Result {
 		send(notif("initialized", map[string]any{}), -1)
 		for step := 0; step < nsteps && oc == nil; step++ {
 			kind := t.Draw(100)
+			if cancelHeavy && kind >= 60 && kind < 88 {
+				kind = 88 + (kind-60)/4 // 88..94: requests and cancels instead of some incremental / invalid edits
+			}
 			di := t.Draw(len(docs))
 			d := docs[di]
 			cut := t.Draw(40) == 39 && step > 0
@@ -428,7 +436,7 @@ func (e *Engine) Run(t *tape.Tape, keep bool) *sim.Result {
 			}
 			send(msg, -1)
 			apply()
-			if t.Draw(3) == 0 { // coalesce: next message follows without a check
+			if t.Draw(drainDen) != 0 { // next message follows without a drain
 				res.Probes["no_check_between_messages"]++
 				continue
 			}
